@@ -411,7 +411,7 @@ Ltac body_tac :=
   repeat match goal with |- context[if ?a <? ?b then _ else _] => match goal with H : (a <? b) = _ |- _ => rewrite H end end;
   cbn [d_l d_slots d_pubs d_evs d_nid d_out];
   try reflexivity;
-  destruct (isz (nth x (d_slots d) 0%N)) eqn:Z; cbn [d_l d_slots d_pubs d_evs d_nid d_out];
+  destruct (isz (nth x (d_slots d) 0%N)) eqn:Z; cbn [negb d_l d_slots d_pubs d_evs d_nid d_out];
   repeat match goal with |- context[if ?a <? ?b then _ else _] => match goal with H : (a <? b) = _ |- _ => rewrite H end end;
   cbn [d_l d_slots d_pubs d_evs d_nid d_out]; unfold store_ev; rewrite ?Z;
   repeat (progress (repeat match goal with |- context[if ?a <? ?b then _ else _] => match goal with H : (a <? b) = _ |- _ => rewrite H end end;
